@@ -1,6 +1,7 @@
 package main
 
 import (
+	"encoding/json"
 	"flag"
 	"fmt"
 	"os"
@@ -54,6 +55,40 @@ func init() {
 		}
 		f(run)
 		os.Exit(run.Finish())
+	}
+	commands["replay"] = func(args []string) {
+		if len(args) < 2 {
+			fmt.Fprintln(os.Stderr, "usage: vx replay <ID> <replay file>")
+			os.Exit(2)
+		}
+		id, file := args[0], args[1]
+		b, err := os.ReadFile(file)
+		if err != nil {
+			fmt.Fprintln(os.Stderr, err)
+			os.Exit(2)
+		}
+		var doc struct {
+			Property string `json:"property"`
+			Key      string `json:"key"`
+			Tier     string `json:"tier"`
+			Seed     int64  `json:"seed"`
+		}
+		if err := json.Unmarshal(b, &doc); err != nil || doc.Key == "" {
+			fmt.Fprintln(os.Stderr, "not a replay file:", file)
+			os.Exit(2)
+		}
+		f, ok := checks[id]
+		if !ok || (doc.Property != "" && doc.Property != id) {
+			fmt.Fprintln(os.Stderr, "no check for", id, "or the file belongs to", doc.Property)
+			os.Exit(2)
+		}
+		if doc.Tier == "" {
+			doc.Tier = "quick"
+		}
+		// same property, seed and tier: the check regenerates the same inputs, the stored one among them
+		run := ev.NewRun(id, doc.Tier, doc.Seed)
+		f(run)
+		os.Exit(run.FinishReplay(doc.Key, file))
 	}
 	commands["warm"] = func(args []string) {}
 }
